@@ -127,6 +127,17 @@ CHECKS = {
         design_ref='DESIGN.md section 9 C02',
         note=BASE_NOTE + 'Partial: see text.',
         technique='Lean 4 theorems over an executable folder model + model/implementation correspondence + level-differential runs'),
+    'C08': dict(
+        category='proof',
+        text='Theorem: for EVERY symbolic instruction stream the assembler produces byte-identical code whether or not the '
+             'debug markers are present (same label addresses, same patched operands), and every marker is recorded on an '
+             'instruction boundary. The model assembles the REAL marker-carrying stream of every generated module and must '
+             'reproduce the real -g code bytes, and with markers erased the bytes of the module compiled without -g (levels 0/1); '
+             'that the generator only ADDS markers is checked on the real streams. Whole behaviour (-g vs no -g at every level: '
+             'acceptance, sections 1-3, trace, outcome) is compared per program, not proved (the peephole pass sees markers).',
+        design_ref='DESIGN.md section 9 C08',
+        note=BASE_NOTE + 'Partial: whole-program behaviour at -O2 is validated by differential runs.',
+        technique='Lean 4 erasure theorem over an assembler model fed with the real instruction streams + differential runs'),
 }
 
 PENDING = ('not yet decided by the Lean framework in this commit; design in DESIGN.md section 9, implementation order in '
